@@ -3,7 +3,7 @@
    MutableNodeRefList (addNodeInDocOrder with its three search strategies, addNodesInDocOrder, Union). *)
 From Coq Require Import List Arith Bool Lia.
 Import ListNotations.
-Require Import XV.NodeListDefs XV.DocOrderModel XV.NodeListModel XV.NodeListFlagModel.
+Require Import XV.GenNodelist XV.NodeListDefs XV.DocOrderModel XV.NodeListModel XV.NodeListFlagModel XV.NodeListMultiModel.
 
 (* ---- 1. structural document order = pre-order index order, for every tree and every pair of nodes
         (the code asserts that neither node is the document node; the equality even holds when one is) *)
@@ -136,9 +136,123 @@ Proof.
 Qed.
 Print Assumptions sorted_nodup.
 
-(* the full statement (any documents) is false for the model of the loop without the keep-documents-together
-   flag (the source as it is while GenNodelist.keeps_documents_together = false), as for the library: inserting x(d0), y(d1),
-   z(d0), x(d0) gives x, y, x, z - documents interleaved and a node twice (known finding F7) *)
+(* ---- 3b. several documents.  The source has the scan loop that keeps the nodes of a document together
+        (commit ea5de2f); the translator regenerates this fact and the theorems below are about that variant. *)
+Theorem live_variant_keeps_documents_together : keeps_documents_together = true.
+Proof. reflexivity. Qed.
+Print Assumptions live_variant_keeps_documents_together.
+
+Lemma all_wv : forall W l, forallb (wvalid W) l = true -> Forall (wv W) l.
+Proof. intros W l H. apply Forall_forall. intros m Hm. rewrite forallb_forall in H. apply H. exact Hm. Qed.
+Lemma wv_all : forall W l, Forall (wv W) l -> forallb (wvalid W) l = true.
+Proof. intros W l H. apply forallb_forall. rewrite Forall_forall in H. exact H. Qed.
+
+(* one insertion, nodes of any documents: whatever strategy runs, the result is the specification [minsert];
+   the grouped-blocks invariant (no node twice, a document's nodes contiguous, ascending inside a block) is kept *)
+Theorem add_in_doc_order_multi_document : forall W l n,
+  forallb (wvalid W) l = true -> wvalid W n = true -> ginvb W l = true ->
+  exists l', addNodeInDocOrder W l n = Some l' /\ l' = minsert W n l false /\ ginvb W l' = true /\
+             forallb (wvalid W) l' = true /\ (forall m, In m l' <-> m = n \/ In m l).
+Proof.
+  intros W l n Hl Hn G. apply all_wv in Hl. apply ginvb_spec in G. exists (minsert W n l false).
+  split; [unfold addNodeInDocOrder; change keeps_documents_together with true; apply add_multi_refines; assumption|].
+  split; [reflexivity|].
+  split; [apply ginvb_spec; apply minsert_ginv; try assumption; intros; discriminate|].
+  split; [apply wv_all; apply minsert_wv; assumption|]. apply minsert_in; assumption.
+Qed.
+Print Assumptions add_in_doc_order_multi_document.
+
+(* every insertion history over nodes of several documents: duplicate-free, never interleaved, strictly
+   ascending inside each document's block, and exactly the inserted nodes *)
+Theorem add_history_multi_document : forall W ns l,
+  forallb (wvalid W) ns = true -> forallb (wvalid W) l = true -> ginvb W l = true ->
+  exists r, fold_left (add_step W) ns (Some l) = Some r /\ ginvb W r = true /\ NoDup r /\
+            groupedb (map fst r) = true /\
+            (forall i j, i < j -> j < length r -> fst (nth i r dummy) = fst (nth j r dummy) ->
+                         key W (nth i r dummy) < key W (nth j r dummy)) /\
+            (forall m, In m r <-> In m l \/ In m ns).
+Proof.
+  intros W ns l Hns Hl G. apply all_wv in Hns. apply all_wv in Hl. apply ginvb_spec in G.
+  destruct (fold_add_multi W ns l Hns Hl G) as (r & E & A & B & C). exists r.
+  split; [exact E|]. split; [apply ginvb_spec; exact A|]. split; [apply (ginv_nodup W); exact A|].
+  split; [apply (ginv_grouped W); exact A|]. split; [intros; apply ginv_block_sorted; assumption | exact C].
+Qed.
+Print Assumptions add_history_multi_document.
+
+Definition operands_ok_multi (W : world) (ops : list nlist) : bool :=
+  forallb (fun o => forallb (wvalid W) (items o) && honest_multi W o) ops.
+
+Lemma operands_ok_multi_split : forall W ops, operands_ok_multi W ops = true ->
+  Forall (fun o => Forall (wv W) (items o)) ops /\ Forall (fun o => honest_multi W o = true) ops.
+Proof.
+  intros W ops H. unfold operands_ok_multi in H. rewrite forallb_forall in H.
+  split; apply Forall_forall; intros o Ho; specialize (H o Ho); apply andb_true_iff in H; destruct H as [H1 H2].
+  - apply all_wv. exact H1.
+  - exact H2.
+Qed.
+
+(* XPath::Union over operands of any documents (flags honest): duplicate-free, never interleaved, sorted
+   inside each document, exactly the operands' nodes *)
+Theorem union_multi_document : forall W ops, operands_ok_multi W ops = true ->
+  exists r, union_code W ops = Some (NL r DocOrder) /\ ginvb W r = true /\ forallb (wvalid W) r = true /\
+            NoDup r /\ groupedb (map fst r) = true /\
+            (forall m, In m r <-> exists o, In o ops /\ In m (items o)).
+Proof.
+  intros W ops H. destruct (operands_ok_multi_split W ops H) as [Hv Hh].
+  destruct (union_multi W ops Hv Hh) as (r & E & G & V & I). exists r.
+  split; [exact E|]. split; [apply ginvb_spec; exact G|]. split; [apply wv_all; exact V|].
+  split; [apply (ginv_nodup W); exact G|]. split; [apply (ginv_grouped W); exact G | exact I].
+Qed.
+Print Assumptions union_multi_document.
+
+(* across documents union is commutative, associative and idempotent as a set (the order of the blocks
+   is the order of first appearance, so the lists themselves may differ in block order) *)
+Theorem union_set_laws_multi_document : forall W A B C, operands_ok_multi W [A; B; C] = true ->
+  exists ab ba bc ab_c a_bc aa,
+    union_code W [A; B] = Some ab /\ union_code W [B; A] = Some ba /\ union_code W [B; C] = Some bc /\
+    union_code W [ab; C] = Some ab_c /\ union_code W [A; bc] = Some a_bc /\ union_code W [A; A] = Some aa /\
+    (forall m, In m (items ab) <-> In m (items ba)) /\
+    (forall m, In m (items ab_c) <-> In m (items a_bc)) /\
+    (forall m, In m (items aa) <-> In m (items A)).
+Proof.
+  intros W A B C H.
+  assert (HA : operands_ok_multi W [A] = true /\ operands_ok_multi W [B] = true /\ operands_ok_multi W [C] = true).
+  { unfold operands_ok_multi in *. simpl in *. repeat rewrite andb_true_iff in *. tauto. }
+  destruct HA as (HA & HB & HC).
+  assert (ok2 : forall X Y, operands_ok_multi W [X] = true -> operands_ok_multi W [Y] = true -> operands_ok_multi W [X; Y] = true).
+  { intros X Y HX HY. unfold operands_ok_multi in *. simpl in *. repeat rewrite andb_true_iff in *. tauto. }
+  assert (U : forall ops, operands_ok_multi W ops = true ->
+            exists r, union_code W ops = Some (NL r DocOrder) /\ operands_ok_multi W [NL r DocOrder] = true /\
+                      (forall m, In m r <-> exists o, In o ops /\ In m (items o))).
+  { intros ops Hok. destruct (union_multi_document W ops Hok) as (r & E & G & V & _ & _ & I).
+    exists r. split; [exact E|]. split; [|exact I].
+    unfold operands_ok_multi, honest_multi. simpl. rewrite V, G. reflexivity. }
+  destruct (U [A; B] (ok2 A B HA HB)) as (ab & Eab & Oab & Iab).
+  destruct (U [B; A] (ok2 B A HB HA)) as (ba & Eba & _ & Iba).
+  destruct (U [B; C] (ok2 B C HB HC)) as (bc & Ebc & Obc & Ibc).
+  destruct (U [NL ab DocOrder; C] (ok2 _ C Oab HC)) as (x & Ex & _ & Ix).
+  destruct (U [A; NL bc DocOrder] (ok2 A _ HA Obc)) as (y & Ey & _ & Iy).
+  destruct (U [A; A] (ok2 A A HA HA)) as (aa & Eaa & _ & Iaa).
+  exists (NL ab DocOrder), (NL ba DocOrder), (NL bc DocOrder), (NL x DocOrder), (NL y DocOrder), (NL aa DocOrder).
+  repeat (split; [assumption|]). simpl. split; [|split]; intro m.
+  - rewrite Iab, Iba. simpl. split; intros (o & [<-|[<-|[]]] & Hm); eexists; (split; [|exact Hm]); simpl; tauto.
+  - rewrite Ix, Iy. simpl. split.
+    + intros (o & [<-|[<-|[]]] & Hm).
+      * simpl in Hm. apply Iab in Hm. destruct Hm as (o & [<-|[<-|[]]] & Hm).
+        -- exists A. tauto.
+        -- exists (NL bc DocOrder). split; [tauto|]. simpl. apply Ibc. exists B. simpl. tauto.
+      * exists (NL bc DocOrder). split; [tauto|]. simpl. apply Ibc. exists C. simpl. tauto.
+    + intros (o & [<-|[<-|[]]] & Hm).
+      * exists (NL ab DocOrder). split; [tauto|]. simpl. apply Iab. exists A. simpl. tauto.
+      * simpl in Hm. apply Ibc in Hm. destruct Hm as (o & [<-|[<-|[]]] & Hm).
+        -- exists (NL ab DocOrder). split; [tauto|]. simpl. apply Iab. exists B. simpl. tauto.
+        -- exists C. tauto.
+  - rewrite Iaa. simpl. split; [intros (o & [<-|[<-|[]]] & Hm); exact Hm | intro Hm; exists A; tauto].
+Qed.
+Print Assumptions union_set_laws_multi_document.
+
+(* regression witnesses: the old loop (without the flag) interleaved documents and inserted a node twice on
+   x(d0), y(d1), z(d0), x(d0) (the repaired defect F7, corpus/C12/f7.txt); the live code gives x, z, y *)
 Definition W2 : world :=
   [ (Node 0 [Node 0 [Node 0 []; Node 0 []; Node 0 []; Node 0 []; Node 0 []; Node 0 []]], true);
     (Node 0 [Node 0 []], true) ].
@@ -146,11 +260,17 @@ Definition x0 : lnode := (0, [SC 2; SC 0]).
 Definition y1 : lnode := (1, [SC 0]).
 Definition z0 : lnode := (0, [SC 4; SC 0]).
 
-Theorem add_in_doc_order_inv_refuted :
-  exists W ns l, forallb (wvalid W) ns = true /\ fold_left (add_step_v false W) ns (Some []) = Some l /\
-                 groupedb (map fst l) = false /\ nodupb l = false.
-Proof. exists W2, [x0; y1; z0; x0], [x0; y1; x0; z0]. vm_compute. repeat split. Qed.
-Print Assumptions add_in_doc_order_inv_refuted.
+Example f7_old_variant_regression :
+  forallb (wvalid W2) [x0; y1; z0; x0] = true /\
+  fold_left (add_step_v false W2) [x0; y1; z0; x0] (Some []) = Some [x0; y1; x0; z0] /\
+  groupedb (map fst [x0; y1; x0; z0]) = false /\ nodupb [x0; y1; x0; z0] = false.
+Proof. vm_compute. repeat split. Qed.
+
+Example f7_live_code :
+  fold_left (add_step W2) [x0; y1; z0; x0] (Some []) = Some [x0; z0; y1] /\ ginvb W2 [x0; z0; y1] = true /\
+  operands_ok_multi W2 [NL [z0; x0] RevOrder; NL [y1] DocOrder; NL [x0; y1; z0] Unknown] = true /\
+  union_code W2 [NL [y1] DocOrder; NL [z0; x0] RevOrder] = Some (NL [y1; x0; z0] DocOrder).
+Proof. vm_compute. repeat split. Qed.
 
 (* ---- 4. bulk merge and union.  Guard: one document, operands flagged honestly (the flag says document
         order / reverse document order only if that is true of the list). *)
